@@ -13,6 +13,8 @@ import (
 var out *bufio.Writer
 
 func emit(v any) {
+	emitMu.Lock()
+	defer emitMu.Unlock()
 	b, err := json.Marshal(v)
 	if err != nil {
 		fmt.Fprintln(os.Stderr, "marshal:", err)
